@@ -388,7 +388,11 @@ PROPS = {
             "C06_vm_second_capture_shares", "C06_vm_heap_mono_meaning", "C06_vm_objects_stable",
             "C06_vm_objects_stable_run", "C06_vm_closures_closed",
             "C06_vm_read_write_open", "C06_vm_close_keeps_value",
-            "C06_vm_return_closes", "C06_vm_closed_upvalue_is_private", "C06_vm_closure_body"]},
+            "C06_vm_return_closes", "C06_vm_closed_upvalue_is_private", "C06_vm_closure_body",
+            # the refinement: representation relation reference cells <-> stack slots / upvalue objects, one-step
+            # preservation (C06SimDefs.v, C06SimVm*.v)
+            "C06_rep_read_upvalue", "C06_rep_write_upvalue", "C06_rep_read_local", "C06_rep_write_local",
+            "C06_rep_close_upvalue", "C06_rep_register_upvalue", "C06_rep_return"]},
         n_quick=200, n_thorough=3000,
         gen_timeout=3000,
         release=False,
